@@ -24,13 +24,13 @@ Hypotheses (each decidable on the run, each shown satisfiable by the `example`s 
 * `Reliable ops`: every `openS` is ordered with `relType = 0`, no `unreg` (the SSN / MID counters of a stream object are
   never restarted; no FORWARD-TSN is ever due, and NetSys delivers none);
 * `chunksWritten P ops < 2^31`: fewer than 2^31 DATA chunks are created in all (each gets at most one TSN —
-  `SenderProofs.run_tsn`, `moved_le_written`), so that a 32-bit TSN names one chunk;
+  `SenderTsn.run_tsn`, `moved_le_written`), so that a 32-bit TSN names one chunk;
 * `WinOk P si W`: deviation D15 — at every step the messages written on the stream are at most `W` ahead of the messages
   read on it (`W = 2^31` for the 32-bit MID, `2^15` for the 16-bit SSN). It implies the `hwin` hypothesis of the receiver
   theorem (inside the proof: a chunk on the wire at some moment belongs to a message written before that moment).
 -/
 namespace C01
-open NetSys SenderProofs
+open NetSys SenderProofs SenderTsn
 
 /-- ✱ **NetSys, I-DATA (message interleaving negotiated).** For every run of NetSys from the initial state, with ANY
 selection oracle of the pending queue (fragments of different messages may interleave in the TSN space in any way: I-DATA
